@@ -484,7 +484,7 @@ func (w *Worker) assertion(site string, c *Term) {
 			default:
 				ob.Verdict = "unknown"
 				hr.mu.Lock()
-				hr.Unknowns = append(hr.Unknowns, site+": solver unknown ("+w.sol.lastErr+")")
+				hr.Unknowns = append(hr.Unknowns, site+": solver unknown ("+w.sol.lastErr+") at "+w.st.choiceString())
 				hr.mu.Unlock()
 			}
 			for _, k := range w.st.known {
@@ -497,7 +497,7 @@ func (w *Worker) assertion(site string, c *Term) {
 	default:
 		ob.Verdict = "unknown"
 		hr.mu.Lock()
-		hr.Unknowns = append(hr.Unknowns, site+": solver unknown ("+w.sol.lastErr+")")
+		hr.Unknowns = append(hr.Unknowns, site+": solver unknown ("+w.sol.lastErr+") at "+w.st.choiceString())
 		hr.mu.Unlock()
 	}
 	ob.Ms = nowMs() - t0
